@@ -29,7 +29,7 @@ KINDS = ('Module', 'ClassDef', 'FunctionDef', 'AsyncFunctionDef')
 
 
 def run(ctx):
-    for fn in (r1_exhaustive_kinds, r2_no_descent, r3_class_level, r4_property_accessors, r4b_delegation, r5_main_guard, r6_package_walk, r7_keys):
+    for fn in (r1_exhaustive_kinds, r2_no_descent, r3_class_level, r3b_reset_ownership, r4_property_accessors, r4b_delegation, r5_main_guard, r6_package_walk, r7_keys):
         ctx.rep.rule(fn, ctx)
 
 
@@ -165,6 +165,30 @@ def r3_class_level(ctx):
                anchor=f.qualname)
 
 
+def r3b_reset_ownership(ctx):
+    """only the activation that entered a class may leave it: every store of None to the nesting field in the class
+    handler is edge-dominated by the true edge of "no enclosing class" (all finally copies included)"""
+    rep = ctx.rep
+    b = visitor_binding(ctx, 'ClassDef')
+    need(b and b[-1] is not None, 'C07.R3: no visit_ClassDef')
+    f = b[-1]
+    recv = f.node.args.args[0].arg
+    g = ctx.cfg(f)
+    dom = ctx.dom(g, g.entry)
+    n_resets = 0
+    for n in g.nodes:
+        if n.kind == 'stmt' and isinstance(n.ast, ast.Assign) and any(field_name(t, recv) == recv + '._current_classname' for t in n.ast.targets) and \
+                isinstance(n.ast.value, ast.Constant) and n.ast.value.value is None and dom.has(n):
+            n_resets += 1
+            facts = graph.guard_facts(dom, n)
+            ok = any(_classname_none_fact(fa, recv) is True for fa in facts)
+            rep.ob('C07.R3', ctx.loc(f, n.ast), ctx.src(n.ast) + (' {%s}' % n.dup[-1][1] if n.dup else ''), ok,
+                   'the nesting field is cleared only by the activation that set it' if ok else
+                   'the nesting field is cleared on a path where this activation did not set it (a nested class that is merely skipped): the methods that follow '
+                   'the nested class are recorded under bare names and later nested classes are collected as top-level', anchor=f.qualname)
+    rep.floor('C07.R3', 'resets of the nesting field', n_resets, 1)
+
+
 def r4_property_accessors(ctx):
     rep = ctx.rep
     recording = [f for f in _handler_funcs(ctx) if _record_stores(ctx, f)[1]]
@@ -255,6 +279,17 @@ def r5_main_guard(ctx):
         skip = skip or graph.path([mb], lambda x: x is g.exit, efilter=graph.normal_only, avoid=descents)
     rep.ob('C07.R5', ctx.loc(f, f.node), 'exit without descent under the __main__ test', skip is not None,
            'the `__name__ == "__main__"` block is skipped' if skip is not None else 'the main guard is not skipped: doctests of code under it are collected', anchor=f.qualname)
+    dom_if = ctx.dom(g, g.entry)
+    for mb in main_branches:
+        # the skip must also be conditional on the comparison operator being ==
+        ops = set()
+        for gb in dom_if.guards(mb) + [mb]:
+            if gb.kind == 'branch' and gb.attrs['test'].kind == 'test' and gb.attrs['polarity'] is True:
+                ops |= {x.attr if isinstance(x, ast.Attribute) else x.id for x in ast.walk(gb.attrs['test'].ast) if isinstance(x, (ast.Attribute, ast.Name))}
+        ok_op = 'Eq' in ops
+        rep.ob('C07.R5', ctx.loc(f, mb.attrs['test'].ast), 'main guard is an == comparison', ok_op,
+               'the skip is conditional on the operator being ast.Eq' if ok_op else
+               'the operator of the comparison is not examined: `if __name__ != "__main__":` (which does run on import) is skipped as well', anchor=f.qualname)
     for mb in main_branches:
         p = graph.path([mb], lambda x: any(x is d for d in descents), efilter=graph.normal_only)
         rep.ob('C07.R5', ctx.loc(f, mb.attrs['test'].ast), 'main-guard branch: %s' % ctx.src(mb.attrs['test'].ast, 90), p is None,
@@ -360,6 +395,32 @@ def r7_keys(ctx):
                 (_, lo, hi, _, _) = next(iter(res.values()))
                 rep.ob('C07.R7', ctx.loc(f, lp.ast), 'yields per example block', (lo, hi) == (1, 1),
                        'exactly one example is yielded per block' if (lo, hi) == (1, 1) else 'between %d and %d examples per block' % (lo, hi), anchor=q)
+    # (a2) the filtered list is one pass over the split blocks, in their order
+    blocks_defs = [d for d in rd.defs if isinstance(d.base, ast.Call) and ctx.res.resolve_call(f, d.base)[0] == 'repo' and ctx.res.resolve_call(f, d.base)[1][0].name == 'split_google_docblocks']
+    need(blocks_defs, 'C07.R7: result of split_google_docblocks not bound')
+    bname = blocks_defs[0].name
+    enum_loops = [n for n in g.nodes if n.kind == 'for' and not n.dup and isinstance(n.ast.iter, ast.Call) and is_name(n.ast.iter.func, 'enumerate') and n.ast.iter.args and isinstance(n.ast.iter.args[0], ast.Name)]
+    for el in enum_loops:
+        lst = el.ast.iter.args[0].id
+        if lst == bname:
+            continue
+        apps = [n for n in g.nodes if not n.dup and any(isinstance(c.func, ast.Attribute) and c.func.attr in ('append', 'extend', 'insert') and is_name(c.func.value, lst) for c in node_calls(n))]
+        ok = bool(apps)
+        why = ''
+        for a in apps:
+            lf = [fr for fr in a.frames if fr.kind == 'loop']
+            if len(lf) != 1 or not is_name(lf[0].stmt.iter, bname):
+                ok = False
+                why = 'filled inside %d loop(s) over %s' % (len(lf), [ctx.src(fr.stmt.iter) for fr in lf])
+            if any(isinstance(c.func, ast.Attribute) and c.func.attr == 'insert' for c in node_calls(a)):
+                ok = False
+                why = 'filled with insert()'
+        resorted = [c for c in ast.walk(f.node) if isinstance(c, ast.Call) and ((isinstance(c.func, ast.Name) and c.func.id in ('sorted', 'reversed')) or (isinstance(c.func, ast.Attribute) and c.func.attr in ('sort', 'reverse')))
+                    and any(is_name(x, lst) for x in ast.walk(c))]
+        ok = ok and not resorted
+        rep.ob('C07.R7', ctx.loc(f, el.ast), 'example list `%s` keeps the order of the docstring blocks' % lst, ok,
+               'filled by a single pass over the split blocks, never re-ordered' if ok else
+               'the example blocks are not collected in docstring order (%s): indices and order of the doctests of one docstring change' % (why or 're-sorted'), anchor=q)
     # (b) parse_doctestables: callname from the calldefs key
     q2 = 'xdoctest.core.parse_doctestables'
     f2 = ctx.func(q2)
@@ -420,6 +481,15 @@ VARIANTS = [
          (SA, "    visit_AsyncFunctionDef = visit_FunctionDef\n", "    def visit_AsyncFunctionDef(self, node):\n        self.visit_FunctionDef(node)\n        self.generic_visit(node)\n")),
     silent('async-handler-by-def',
            (SA, "    visit_AsyncFunctionDef = visit_FunctionDef\n", "    def visit_AsyncFunctionDef(self, node):\n        return self.visit_FunctionDef(node)\n")),
+    fire('classname-reset-in-finally-for-skipped-nested-class', 'C07.R3',
+         (SA, "        if self._current_classname is None:\n            callname = node.name\n            self._current_classname = callname\n", "        try:\n          if self._current_classname is None:\n            callname = node.name\n            self._current_classname = callname\n"),
+         (SA, "            self.generic_visit(node)\n            self._current_classname = None\n\n            self._finish_queue.append(calldef)\n", "            self.generic_visit(node)\n            self._finish_queue.append(calldef)\n        finally:\n            self._current_classname = None\n")),
+    fire('main-guard-operator-not-checked', 'C07.R5',
+         (SA, "                        isinstance(node.test.ops[0], ast.Eq),\n                        node.test.left.id == '__name__',\n                        node.test.comparators[0].value == '__main__',\n", "                        node.test.left.id == '__name__',\n                        node.test.comparators[0].value == '__main__',\n")),
+    fire('google-blocks-grouped-by-tag', 'C07.R7',
+         (CO, "    for type, block in blocks:\n        if type.startswith(example_tags):\n            example_blocks.append((type, block))\n", "    for tag in example_tags:\n        for type, block in blocks:\n            if type.startswith(tag):\n                example_blocks.append((type, block))\n")),
+    silent('classname-reset-in-finally-inside-guard',
+           (SA, "            self.generic_visit(node)\n            self._current_classname = None\n", "            try:\n                self.generic_visit(node)\n            finally:\n                self._current_classname = None\n")),
     silent('prune-by-clear', (SA, "                del dnames[:]\n", "                dnames.clear()\n")),
     silent('prune-by-slice-assign', (SA, "                del dnames[:]\n", "                dnames[:] = []\n")),
 ]
